@@ -79,3 +79,18 @@ Theorem C18_jpeg_icc : forall inflate (P R : list jitem) (x : jitem) (n : nat) f
   pulled inflate (jpeg_prog fuel) r <= length (jpeg_head_icc P x) + 4095.
 Proof. exact jpeg_icc_pulled. Qed.
 Print Assumptions C18_jpeg_icc.
+
+(* WebP lossless: 25 header bytes; extended with a profile: 38 bytes + the profile; plus the read-ahead *)
+Theorem C18_webp_vp8l : forall inflate total len w1 h1 hi body fuel r,
+  (total < 4294967296)%N -> (len < 4294967296)%N -> (w1 < 16384)%N -> (h1 < 16384)%N -> (hi < 16)%N ->
+  nofail r -> src_data r = riff total (vp8l_payload len w1 h1 hi body) ->
+  pulled inflate (webp_prog fuel) r <= 25 + 4095.
+Proof. exact webp_vp8l_pulled. Qed.
+Print Assumptions C18_webp_vp8l.
+Theorem C18_webp_vp8x_with_profile : forall inflate total flags r1 r2 r3 w1 h1 profile body fuel r,
+  (total < 4294967296)%N -> (w1 < 16777216)%N -> (h1 < 16777216)%N -> N.testbit (bN flags) 5 = true ->
+  (lenN profile < 4294967296)%N ->
+  nofail r -> src_data r = riff total (vp8x_payload flags r1 r2 r3 w1 h1 (iccp_chunk profile ++ body)) ->
+  pulled inflate (webp_prog fuel) r <= 38 + length profile + 4095.
+Proof. exact webp_vp8x_profile_pulled. Qed.
+Print Assumptions C18_webp_vp8x_with_profile.
